@@ -204,11 +204,10 @@ func ReadTasks(resp, key, iv []byte) ([]Task, error) {
 			return out, ErrShort
 		}
 		t.Raw = resp[:n]
-		if allZero(key) {
-			t.Body = append([]byte{}, t.Raw...)
-		} else {
-			t.Body = CTR(t.Raw, key, iv)
-		}
+		// task bodies are always CTR-processed, also under the all-zero key
+		// (BuildPayloadMessage / Command.c ParserDecrypt); only the registration
+		// metadata is left in clear for a zero key
+		t.Body = CTR(t.Raw, key, iv)
 		resp = resp[n:]
 		out = append(out, t)
 	}
